@@ -117,7 +117,7 @@ class Effects:
                 for tgt, val, elem in pairs:
                     if val is None:
                         continue
-                    ps = self.paths(val, env)
+                    ps = self.paths(val, env, f)
                     if elem:
                         ps = {(r, p + ("[*]",)) for r, p in ps}
                     names = [tgt] if isinstance(tgt, ast.Name) else [e for e in ast.walk(tgt) if isinstance(e, ast.Name)] if isinstance(tgt, (ast.Tuple, ast.List)) else []
@@ -136,42 +136,141 @@ class Effects:
         f._alias_env = env  # type: ignore[attr-defined]
         return env
 
-    def paths(self, e: ast.AST, env: dict[str, set[tuple[str, Path]]]) -> set[tuple[str, Path]]:
+    def paths(self, e: ast.AST, env: dict[str, set[tuple[str, Path]]], f: FuncInfo | None = None) -> set[tuple[str, Path]]:
         if isinstance(e, ast.Name):
             return set(env.get(e.id, set()))
         if isinstance(e, ast.Attribute):
-            return {(r, _cap(p + (e.attr,))) for r, p in self.paths(e.value, env)}
+            res: set[tuple[str, Path]] = set()
+            for r, p in self.paths(e.value, env, f):
+                o = self._overrides(p[-1]).get(e.attr) if p else None
+                if o is not None:
+                    res |= set(o[0])  # the field was re-assigned on the fresh copy
+                    if o[1]:
+                        continue
+                res.add((r, _cap(p + (e.attr,), 4 if not any(_is_shallow(x) for x in p) else 6)))
+            return res
         if isinstance(e, ast.Subscript):
-            return {(r, _cap(p + ("[*]",))) for r, p in self.paths(e.value, env)}
+            return {(r, _cap(p + ("[*]",))) for r, p in self.paths(e.value, env, f)}
         if isinstance(e, ast.Starred):
-            return self.paths(e.value, env)
+            return self.paths(e.value, env, f)
         if isinstance(e, ast.Await):
-            return self.paths(e.value, env)
+            return self.paths(e.value, env, f)
         if isinstance(e, ast.IfExp):
-            return self.paths(e.body, env) | self.paths(e.orelse, env)
+            return self.paths(e.body, env, f) | self.paths(e.orelse, env, f)
         if isinstance(e, ast.BoolOp):
             out: set[tuple[str, Path]] = set()
             for v in e.values:
-                out |= self.paths(v, env)
+                out |= self.paths(v, env, f)
             return out
         if isinstance(e, ast.NamedExpr):
-            return self.paths(e.value, env)
+            return self.paths(e.value, env, f)
         if isinstance(e, ast.Call):
             if isinstance(e.func, ast.Attribute) and e.func.attr in ELEMENT_GETTERS | {"pop", "setdefault"}:
-                return {(r, _cap(p + ("[*]",))) for r, p in self.paths(e.func.value, env)}
+                return {(r, _cap(p + ("[*]",))) for r, p in self.paths(e.func.value, env, f)}
             d = dotted(e.func)
             if d == "getattr" and len(e.args) >= 2 and isinstance(e.args[1], ast.Constant) and isinstance(e.args[1].value, str):
-                return {(r, _cap(p + (e.args[1].value,))) for r, p in self.paths(e.args[0], env)}
+                return {(r, _cap(p + (e.args[1].value,))) for r, p in self.paths(e.args[0], env, f)}
             # shallow copies: a fresh top-level object whose fields / elements are shared with the source
             if d in SHALLOW_COPY_CALLS and len(e.args) == 1 and not e.keywords:
-                return {(r, _cap(p + (SHALLOW,), 5)) for r, p in self.paths(e.args[0], env)}
+                return {(r, _cap(p + (SHALLOW,), 5)) for r, p in self.paths(e.args[0], env, f)}
             if d in ("reversed", "iter", "enumerate", "zip") and e.args:
                 out = set()
                 for a in e.args:
-                    out |= self.paths(a, env)
+                    out |= self.paths(a, env, f)
                 return out
+            if f is not None:
+                return self._call_result_paths(e, env, f)
             return set()
         return set()
+
+    def returns(self, g: FuncInfo) -> tuple[set[tuple[str, Path]], dict[str, tuple[frozenset, bool]]]:
+        """What the value returned by ``g`` may alias: (parameter, path) pairs (``return graph.inputs`` ->
+        ("graph", ("inputs",))), and the fields the function re-assigned on the returned local before
+        returning it (``clone.hist = list(self.hist)``): field -> (aliases of the new value, assigned on every path)."""
+        memo = self.__dict__.setdefault("_ret_memo", {})
+        if g.qname in memo:
+            return memo[g.qname]
+        act = self.__dict__.setdefault("_ret_active", set())
+        if g.qname in act or len(act) > 6:
+            return set(), {}
+        act.add(g.qname)
+        out: set[tuple[str, Path]] = set()
+        ov: dict[str, tuple[frozenset, bool]] = {}
+        if not any(isinstance(n, (ast.Yield, ast.YieldFrom)) for n in walk_local(g.node)):
+            env = self.env(g)
+            params = set(g.param_names)
+            ret_names: set[str] = set()
+            for n in walk_local(g.node):
+                if isinstance(n, ast.Return) and n.value is not None:
+                    out |= {(r, p) for r, p in self.paths(n.value, env, g) if r in params}
+                    if isinstance(n.value, ast.Name):
+                        ret_names.add(n.value.id)
+            if len(ret_names) == 1:
+                nm = next(iter(ret_names))
+                top = set(map(id, g.body))
+                for n in walk_local(g.node):
+                    if isinstance(n, ast.Assign) and len(n.targets) == 1 and isinstance(n.targets[0], ast.Attribute) and isinstance(n.targets[0].value, ast.Name) and n.targets[0].value.id == nm:
+                        fld = n.targets[0].attr
+                        ps = frozenset((r, p) for r, p in self.paths(n.value, env, g) if r in params)
+                        strong = id(n) in top
+                        if fld in ov:
+                            ps, strong = ps | ov[fld][0], strong and ov[fld][1]
+                        ov[fld] = (ps, strong)
+        act.discard(g.qname)
+        memo[g.qname] = (out, ov)
+        return out, ov
+
+    def _marker(self, table: dict[str, tuple[frozenset, bool]]) -> str:
+        tabs = self.__dict__.setdefault("_ov", [])
+        key = tuple(sorted((k, tuple(sorted(v[0])), v[1]) for k, v in table.items()))
+        idx = self.__dict__.setdefault("_ov_idx", {})
+        if key not in idx:
+            idx[key] = len(tabs)
+            tabs.append(table)
+        return f"{SHALLOW[:-1]}#{idx[key]}>"
+
+    def _overrides(self, elem: str) -> dict[str, tuple[frozenset, bool]]:
+        if elem.startswith(SHALLOW[:-1] + "#"):
+            return self.__dict__.get("_ov", [])[int(elem[len(SHALLOW) :-1])]
+        return {}
+
+    def _call_result_paths(self, call: ast.Call, env, f: FuncInfo) -> set[tuple[str, Path]]:
+        """Aliases of the result of a call to a package function, through its return summary."""
+        out: set[tuple[str, Path]] = set()
+        for c in self.db.resolve_call(call, f):
+            g = c.func
+            if g is None or c.kind != "func":
+                continue
+            rs, ov = self.returns(g)
+            if not rs:
+                continue
+            binding = dict(bind_args(call, g) or {})
+            if isinstance(call.func, ast.Attribute) and g.positional_params[:1] == ["self"] and "self" not in binding:
+                binding["self"] = call.func.value
+            arg_paths = {k: self.paths(a, env, f) for k, a in binding.items()}
+
+            def remap_pairs(pairs, depth=0) -> frozenset:
+                res = set()
+                for root, path in pairs:
+                    for r, p in arg_paths.get(root, ()):
+                        res.add((r, _cap(p + remap_path(path, depth), 6)))
+                return frozenset(res)
+
+            def remap_path(path: Path, depth=0) -> Path:
+                if depth > 3:
+                    return tuple(SHALLOW if _is_shallow(x) else x for x in path)
+                return tuple(self._marker({k: (remap_pairs(v[0], depth + 1), v[1]) for k, v in self._overrides(x).items()}) if self._overrides(x) else x for x in path)
+
+            for root, path in rs:
+                if root not in arg_paths:
+                    continue
+                path2 = remap_path(path)
+                if ov and path2 and _is_shallow(path2[-1]):
+                    table = dict(self._overrides(path2[-1]))
+                    table.update({k: (remap_pairs(v[0]), v[1]) for k, v in ov.items()})
+                    path2 = path2[:-1] + (self._marker(table),)
+                out |= {(r, _cap(p + path2, 6)) for r, p in arg_paths[root]}
+        return out
 
     # -- summaries ---------------------------------------------------------------
 
@@ -179,17 +278,28 @@ class Effects:
         """root -> effects (paths relative to the root)."""
         if f.qname in self.memo:
             return self.memo[f.qname]
+        cuts = self.__dict__.setdefault("_cuts", [])
         if f.qname in self.active or depth > 12:
+            # recursion cut: every summary being computed above this point is incomplete with respect to
+            # f and must not be memoised until f itself has finished
+            for cs in cuts:
+                cs.add(f.qname)
             return {}
+        partial = self.__dict__.setdefault("_partial", {})
+        if f.qname in partial and partial[f.qname][0] <= self.active:
+            # computed earlier in the same recursion context (same functions still open): reuse
+            return partial[f.qname][1]
         self.active.add(f.qname)
+        my_cuts: set[str] = set()
+        cuts.append(my_cuts)
         out: dict[str, set[Effect]] = {}
         env = self.env(f)
 
         def add(kind: str, root: str, path: Path, node: ast.AST, detail: str = "") -> None:
-            if SHALLOW in path:
+            if any(_is_shallow(x) for x in path):
                 # effects on the fresh top level of a shallow copy are not effects on the source;
                 # anything below it (a field's object, an element) is shared with the source
-                i = len(path) - 1 - path[::-1].index(SHALLOW)
+                i = max(k for k, x in enumerate(path) if _is_shallow(x))
                 rest = tuple(x for x in path[i + 1 :])
                 if rest[:1] == ("__dict__",):
                     rest = rest[1:]
@@ -199,7 +309,7 @@ class Effects:
                     return
                 if kind == "mutate" and len(rest) == 0:
                     return
-                path = tuple(x for x in path if x != SHALLOW)
+                path = tuple(x for x in path if not _is_shallow(x))
             out.setdefault(root, set()).add(Effect(kind, _cap(path), f.qname, getattr(node, "lineno", 0), detail))
 
         def add_all(kind: str, ps: Iterable[tuple[str, Path]], node: ast.AST, detail: str = "", extra: Path = ()) -> None:
@@ -218,15 +328,15 @@ class Effects:
                         flat.append(t)
                 for t in flat:
                     if isinstance(t, ast.Attribute):
-                        add_all("write", self.paths(t.value, env), n, f"{ast.unparse(t)} = ...", (t.attr,))
+                        add_all("write", self.paths(t.value, env, f), n, f"{ast.unparse(t)} = ...", (t.attr,))
                     elif isinstance(t, ast.Subscript):
-                        add_all("mutate", self.paths(t.value, env), n, f"{'del ' if isinstance(n, ast.Delete) else ''}{ast.unparse(t)}", ("[*]",) if False else ())
+                        add_all("mutate", self.paths(t.value, env, f), n, f"{'del ' if isinstance(n, ast.Delete) else ''}{ast.unparse(t)}", ("[*]",) if False else ())
                     elif isinstance(t, ast.Name) and isinstance(n, ast.AugAssign):
                         # x += ... mutates in place for lists
                         if isinstance(n.op, (ast.Add, ast.BitOr)):
                             add_all("mutate", env.get(t.id, set()) if t.id not in f.param_names or True else set(), n, f"{t.id} {type(n.op).__name__}= ...")
             elif isinstance(n, ast.Attribute) and isinstance(n.ctx, ast.Load):
-                ps = self.paths(n.value, env)
+                ps = self.paths(n.value, env, f)
                 if ps:
                     add_all("read", ps, n, "", (n.attr,))
                     # property expansion
@@ -251,7 +361,14 @@ class Effects:
                         for eff in effs:
                             out.setdefault(r, set()).add(Effect(eff.kind, _cap(p + eff.path), eff.func, eff.lineno, eff.detail))
         self.active.discard(f.qname)
-        self.memo[f.qname] = out
+        cuts.pop()
+        open_cuts = (my_cuts - {f.qname}) & self.active
+        if open_cuts:
+            # depends on a function that is still being summarised: valid only while those stay open
+            partial[f.qname] = (frozenset(open_cuts), out)
+        else:
+            self.memo[f.qname] = out
+            partial.pop(f.qname, None)
         return out
 
     def _call(self, f: FuncInfo, call: ast.Call, env, add, add_all, depth: int) -> None:
@@ -260,7 +377,7 @@ class Effects:
         d = dotted(fe)
         # method call on an aliased receiver
         if isinstance(fe, ast.Attribute):
-            recv = self.paths(fe.value, env)
+            recv = self.paths(fe.value, env, f)
             if recv:
                 pkg = [c for c in cals if c.func is not None and c.kind == "func"]
                 if pkg:
@@ -281,11 +398,11 @@ class Effects:
         # setattr(obj, name, v)
         if d == "setattr" and len(call.args) >= 2:
             nm = call.args[1].value if isinstance(call.args[1], ast.Constant) else "?"
-            add_all("write", self.paths(call.args[0], env), call, f"setattr(..., {nm!r})", (str(nm),))
+            add_all("write", self.paths(call.args[0], env, f), call, f"setattr(..., {nm!r})", (str(nm),))
             return
         if d in ("object.__setattr__",) and len(call.args) >= 3:
             nm = call.args[1].value if isinstance(call.args[1], ast.Constant) else "?"
-            add_all("write", self.paths(call.args[0], env), call, f"object.__setattr__(..., {nm!r})", (str(nm),))
+            add_all("write", self.paths(call.args[0], env, f), call, f"object.__setattr__(..., {nm!r})", (str(nm),))
             return
         # arguments flowing into package callees
         for c in cals:
@@ -297,7 +414,7 @@ class Effects:
                 continue
             sub = None
             for pname, aexpr in binding.items():
-                ps = self.paths(aexpr, env)
+                ps = self.paths(aexpr, env, f)
                 if not ps:
                     continue
                 if sub is None:
@@ -309,7 +426,7 @@ class Effects:
             # unresolved / external callee receiving an alias
             short = (d or (fe.attr if isinstance(fe, ast.Attribute) else "")).split(".")[-1]
             for a in list(call.args) + [k.value for k in call.keywords]:
-                ps = self.paths(a, env)
+                ps = self.paths(a, env, f)
                 if not ps:
                     continue
                 if short in PURE_EXTERNALS:
@@ -330,6 +447,10 @@ class Effects:
 
     def reads(self, f: FuncInfo, param: str) -> set[Path]:
         return {e.path for e in self.on_param(f, param) if e.kind == "read"}
+
+
+def _is_shallow(x: str) -> bool:
+    return x == SHALLOW or x.startswith(SHALLOW[:-1] + "#")
 
 
 def _cap(p: Path, n: int = 4) -> Path:
